@@ -322,6 +322,7 @@ def _explore_big(sc, idx, budget, procs):
     try:
         pr = conc.explore_parallel(sc, base, procs=procs, max_runs=budget)
         ex = conc.Explorer(sc, os.path.join(base, "fu"), max_runs=0)
+        ex.probe()
         outs = []
         for k, e in pr["outcomes"].items():
             rec = e["rec"]
